@@ -1,24 +1,33 @@
 """C12 — builtins are total and agree with reference models.
 
-theorem layer : coq/theories/props/C12.v (impl_<b> = spec, never Panic)
+theorem layer : coq/theories/props/C12.v (impl_<b> = spec on the flat bytes, never Panic, result ropes wf;
+                rope denotation theorems; shape independence)
 correspondence: extracted impl_<b> (OCaml) vs the real builtin functions (harness qv_builtin),
-                debug and (thorough) release builds, boundary-weighted arguments, every rope shape
-impl oracle   : PANIC from the real code, or the real result differing between two rope shapes of
-                equal content, is a violation on its own (no model needed)."""
+                debug and (thorough) release builds, boundary-weighted arguments, every rope shape;
+                value AND resulting rope shape are compared; the extracted reference specs are run on
+                the same cases too (spec vs real on the flattened result)
+impl oracles  : (1) PANIC / hang / missing output from the real code,
+                (2) the real result differing between two rope shapes of equal content,
+                are violations on their own (no model needed)."""
 import hashlib, re
 from vplib import sexpr
 
 MANIFEST = dict(
     category="proof",
-    text="Coq theorems: each modelled builtin's implementation model (integer.rs/binary.rs/vector.rs control flow on machine integers and ropes) equals a plain reference spec over unbounded Z / flat byte lists and never panics, for all arguments; the model is tied to the code by differential execution of the extracted model against the real builtin functions (debug and release builds) on boundary-weighted arguments and every rope shape.",
+    text="Coq theorems: (a) rope representation invariant wf and the denotation theorems (len/byte_at/iter/find_byte/slice/concat/tiled agree with plain list functions on bytes_of; shape independence); (b) for every integer_*, binary_* and vector_* builtin except integer_sin/cos, the implementation model (Rust control flow of integer.rs/binary.rs/vector.rs on machine integers and ropes, every unwrap/index/overflow an explicit Panic arm) equals a plain reference spec over unbounded Z / flat byte lists for ALL arguments whose binaries are wf ropes, never panics, and returns wf ropes. The model is tied to the code by differential execution of the extracted model AND the extracted spec against the real builtin functions (debug and release builds) on boundary-weighted arguments and every rope shape (value and result rope shape compared), plus a shape-independence oracle on the real code.",
     design_ref="§5 C12",
-    note="Trusted: Coq kernel, extraction (ExtrOcamlBasic), OCaml driver, Rust harness, generators. integer_sin/cos go through f64/libm and are only exercised for totality. Model-coverage guard lists unmodelled builtins in the evidence.",
-    technique="Coq proof (impl model = reference spec, panic-freedom) + model/code correspondence by differential execution",
+    note="Trusted: Coq kernel, extraction (ExtrOcamlBasic), OCaml driver, Rust harness, generators. integer_sin/cos go through f64/libm and are only exercised for totality (never compared with a model). Model-coverage guard: a registered integer_/binary_/vector_ builtin that is neither modelled nor totality-only is a violation. Rope.v does not model usize overflow inside BinaryData methods (impossible under wf: every node length <= MAX_BINARY_SIZE).",
+    technique="Coq proof (impl model = reference spec, panic-freedom, rope invariant) + model/code correspondence by differential execution + metamorphic shape-independence oracle",
 )
+
+MAXB = 16 * 1024 * 1024
+TOTALITY_ONLY = ["integer_cos", "integer_sin"]          # f64/libm: only `never panics` is checked
+# builtins that never walk the bytes of their argument: safe to feed near-MAX lazy ropes
+NON_MATERIALISING = {"binary_length", "binary_slice", "binary_concat", "binary_repeat", "binary_new", "binary_index"}
 
 BOUNDARY = [0, 1, -1, 2, 7, 8, 9, 63, 64, 65, 127, 128, 255, 256, 2**31 - 1, 2**31, 2**32 - 1, 2**32, 2**32 + 1,
             2**63 - 1, 2**63, 2**63 + 1, 2**64 - 1, 2**64, 2**64 + 1, 2**70, 10**30,
-            -2, -8, -64, -65, -2**31, -2**32, -2**63, -2**63 - 1, -2**64, -10**30, 16 * 1024 * 1024, 16 * 1024 * 1024 + 1]
+            -2, -8, -64, -65, -2**31, -2**32, -2**63, -2**63 - 1, -2**64, -10**30, MAXB, MAXB + 1, MAXB - 1]
 
 
 def gen_int(rng, small_bias=0.35):
@@ -36,62 +45,364 @@ def gen_bytes(rng, n):
     mode = rng.random()
     if mode < 0.2:
         return bytes([rng.choice([0, 0xff, 0x80, 0x01])] * n)
+    if mode < 0.3:
+        return bytes(rng.choice([0, 0xff, 0x7f, 0x80]) for _ in range(n))
     return bytes(rng.getrandbits(8) for _ in range(n))
 
 
-def rope_shapes(rng, content):
-    """A rope expression (generator syntax) whose bytes are exactly `content`, of a random shape."""
+# ------------------------------------------------------------------ ropes
+# A binary argument is a *content descriptor*; `shape` renders it as a random well-formed rope
+# expression (every node length <= MAXB) of exactly that content, so one case can be rendered in
+# two shapes for the shape-independence oracle.
+#   ("bytes", b)            small explicit content
+#   ("zeros", n)            n zero bytes (possibly near MAXB)
+#   ("periodic", unit, c)   unit repeated c times (possibly near MAXB)
+
+def shape(rng, d, depth=0):
+    kind = d[0]
+    if kind == "zeros":
+        n = d[1]
+        r = rng.random()
+        if n <= 64 and r < 0.3:
+            return shape(rng, ("bytes", bytes(n)), depth)
+        if r < 0.5 or n < 2 or depth > 2:
+            return "(zero %d)" % n
+        if r < 0.65:
+            a = rng.randint(1, n - 1)
+            return "(cat %s %s)" % (shape(rng, ("zeros", a), depth + 1), shape(rng, ("zeros", n - a), depth + 1))
+        if r < 0.8:
+            for k in rng.sample([1, 2, 4, 8, 1024], 5):
+                if n % k == 0 and n // k >= 2:
+                    return "(tile %s %d)" % (shape(rng, ("zeros", k), depth + 1), n // k)
+            return "(zero %d)" % n
+        off = rng.randint(0, min(MAXB - n, 9))
+        extra = rng.randint(0, min(MAXB - n - off, 9))
+        if off + extra == 0:
+            return "(zero %d)" % n
+        return "(slice (zero %d) %d %d)" % (n + off + extra, off, n)
+    if kind == "periodic":
+        unit, c = d[1], d[2]
+        r = rng.random()
+        if c < 2 or len(unit) == 0:
+            return shape(rng, ("bytes", unit * c), depth)
+        if r < 0.5 or depth > 2:
+            return "(tile %s %d)" % (shape(rng, ("bytes", unit), depth + 1), c)
+        if r < 0.7:
+            a = rng.randint(1, c - 1)
+            return "(cat %s %s)" % (shape(rng, ("periodic", unit, a), depth + 1), shape(rng, ("periodic", unit, c - a), depth + 1))
+        if r < 0.85 and c % 2 == 0 and c >= 4:
+            return "(tile %s %d)" % (shape(rng, ("periodic", unit, 2), depth + 1), c // 2)
+        if len(unit) * (c + 1) <= MAXB:
+            k = rng.randint(1, len(unit))
+            # a slice of a longer tiling, starting at a unit boundary
+            return "(slice (tile %s %d) 0 %d)" % (shape(rng, ("bytes", unit), depth + 1), c + 1, len(unit) * c) if k else ""
+        return "(tile %s %d)" % (shape(rng, ("bytes", unit), depth + 1), c)
+    content = d[1]
     n = len(content)
-    kind = rng.random()
+    r = rng.random()
     if n == 0:
-        return rng.choice(["(own)", "(zero 0)", "(slice (own 0102) 1 0)", "(tile (own 01) 0)"])
-    if kind < 0.3:
+        return rng.choice(["(own)", "(zero 0)", "(slice (own 0102) 1 0)", "(tile (own 01) 0)", "(tile (own) 5)", "(cat (own) (zero 0))"])
+    if depth > 3 or r < 0.25:
         return "(own %s)" % content.hex()
-    if kind < 0.5 and n >= 2:
+    if r < 0.5 and n >= 2:
         k = rng.randint(1, n - 1)
-        return "(cat %s %s)" % (rope_shapes(rng, content[:k]), rope_shapes(rng, content[k:]))
-    if kind < 0.7:
+        return "(cat %s %s)" % (shape(rng, ("bytes", content[:k]), depth + 1), shape(rng, ("bytes", content[k:]), depth + 1))
+    if r < 0.55:
+        return "(cat %s %s)" % ((shape(rng, ("bytes", b""), depth + 1), shape(rng, d, depth + 1)) if rng.random() < 0.5
+                                else (shape(rng, d, depth + 1), shape(rng, ("bytes", b""), depth + 1)))
+    if r < 0.75:
         pre = gen_bytes(rng, rng.randint(0, 3)); post = gen_bytes(rng, rng.randint(0, 3))
         if pre or post:
-            return "(slice %s %d %d)" % (rope_shapes(rng, pre + content + post) if rng.random() < 0.3 else "(own %s)" % (pre + content + post).hex(), len(pre), n)
-    if all(b == 0 for b in content) and kind < 0.9:
+            return "(slice %s %d %d)" % (shape(rng, ("bytes", pre + content + post), depth + 1), len(pre), n)
+    if all(b == 0 for b in content) and r < 0.9:
         return "(zero %d)" % n
-    # tiled, when content is periodic
-    for p in (1, 2, 3, 4):
+    for p in (1, 2, 3, 4, 8):
         if n % p == 0 and n // p >= 2 and content == content[:p] * (n // p):
-            return "(tile %s %d)" % (rope_shapes(rng, content[:p]), n // p)
+            return "(tile %s %d)" % (shape(rng, ("bytes", content[:p]), depth + 1), n // p)
     return "(own %s)" % content.hex()
 
 
-def gen_rope(rng):
+def gen_content(rng, big_ok=False, sizes=None):
+    r = rng.random()
+    if big_ok and r < 0.12:
+        n = rng.choice([MAXB, MAXB - 1, MAXB - 7, MAXB // 2, MAXB // 2 + 1, 2**20, 70000, 4097, 4096])
+        if rng.random() < 0.5:
+            return ("zeros", n)
+        unit = gen_bytes(rng, rng.choice([1, 2, 3, 4, 8]))
+        return ("periodic", unit, max(2, n // len(unit)))
+    if r < 0.2:
+        unit = gen_bytes(rng, rng.choice([1, 2, 3, 4, 8]))
+        return ("bytes", unit * rng.randint(0, 12))
+    if r < 0.27:
+        return ("bytes", bytes(rng.randint(0, 40)))
+    n = rng.choice(sizes or [0, 1, 2, 3, 4, 7, 8, 9, 12, 16, 17, 32]) if r < 0.85 else rng.randint(0, 90)
+    return ("bytes", gen_bytes(rng, n))
+
+
+def content_len(d):
+    return d[1] if d[0] == "zeros" else len(d[1]) * d[2] if d[0] == "periodic" else len(d[1])
+
+
+# ------------------------------------------------------------------ per-builtin argument templates
+# A template is a nested list of ("i", n) | ("b", descriptor) | ("t", [fields]) | ("o",)
+
+def I(n): return ("i", n)
+def B(d): return ("b", d)
+def T(*fs): return ("t", list(fs))
+
+
+def near(rng, x, spread=2):
+    return x + rng.randint(-spread, spread)
+
+
+def lane_bytes(rng, w, count, mode):
+    out = b""
+    lo, hi = -(2 ** (8 * w - 1)), 2 ** (8 * w - 1) - 1
+    for _ in range(count):
+        r = rng.random()
+        if mode == "small" or r < 0.4:
+            v = rng.randint(-1000, 1000)
+        elif r < 0.7:
+            v = rng.choice([lo, hi, lo + 1, hi - 1, 0, -1, 1, 2**31 - 1, -2**31, 2**31, 2**32, 3037000500, -3037000500, 46341, -46341])
+            v = max(lo, min(hi, v))
+        else:
+            v = rng.randint(lo, hi)
+        out += (v % 2 ** (8 * w)).to_bytes(w, "little")
+    return out
+
+
+def gen_width(rng):
+    r = rng.random()
+    return 4 if r < 0.45 else 8 if r < 0.9 else rng.choice([0, 1, 2, 3, 5, 16, -4, 2**63, 2**64 + 4, -2**63 - 1])
+
+
+def targeted(rng, name):
+    big = name in NON_MATERIALISING
+    c = lambda **kw: gen_content(rng, big_ok=big, **kw)
+    if name in ("binary_length", "binary_not", "binary_popcount", "binary_hash32", "binary_hash64"):
+        return B(c())
+    if name == "binary_new":
+        return I(rng.choice([0, 1, 5, 4096, 4097, MAXB - 1, MAXB, MAXB + 1, 2**32, 2**63, 2**64 - 1, 2**64, -1, -2**63]) if rng.random() < 0.7 else gen_int(rng))
+    if name == "binary_concat":
+        a = c()
+        if rng.random() < 0.3:
+            rest = MAXB - content_len(a)
+            n = max(0, near(rng, rest, 1))
+            b = ("zeros", n) if n > 64 or rng.random() < 0.5 else ("bytes", gen_bytes(rng, n))
+            if content_len(b) > MAXB:
+                b = ("zeros", MAXB)
+        else:
+            b = c()
+        return T(B(a), B(b)) if rng.random() < 0.5 else T(B(b), B(a))
+    if name in ("binary_and", "binary_or", "binary_xor"):
+        a = c()
+        b = ("bytes", gen_bytes(rng, max(0, near(rng, content_len(a), 3)))) if rng.random() < 0.5 else c()
+        return T(B(a), B(b))
+    if name == "binary_repeat":
+        a = c()
+        n = content_len(a)
+        r = rng.random()
+        if r < 0.35:
+            cnt = rng.randint(0, 6)
+        elif r < 0.7 and n > 0:
+            cnt = max(0, near(rng, MAXB // n, 1))
+        else:
+            cnt = rng.choice([0, 1, 2, 2**31, 2**32, 2**63 - 1, 2**63, 2**64 - 1, 2**64, -1, MAXB, MAXB + 1, (2**64) // max(n, 1), (2**64) // max(n, 1) + 1])
+        return T(B(a), I(cnt))
+    if name == "binary_shift":
+        a = c()
+        bits = content_len(a) * 8
+        r = rng.random()
+        if r < 0.5:
+            k = rng.randint(-bits - 2, bits + 2)
+        elif r < 0.7:
+            k = rng.choice([1, -1, 1, -1, 0]) * rng.choice([0, 1, 7, 8, 9, 15, 16, bits - 1, bits, bits + 1, bits - 8, bits - 7])
+        else:
+            k = rng.choice([2**32, 2**32 + 1, -2**32, -2**32 - 1, 2**32 + 8, 2**63 - 1, -2**63, 2**63, -2**63 - 1, 2**31, -2**31, 2**64, 2**32 - 1, 0])
+        return T(B(a), I(k))
+    if name in ("binary_get", "binary_set"):
+        a = c(sizes=[0, 1, 2, 7, 8, 9, 10, 12, 16, 17])
+        n = content_len(a)
+        r = rng.random()
+        nb = rng.choice([1, 2, 7, 8, 9, 15, 16, 17, 31, 32, 33, 56, 57, 63, 64]) if r < 0.6 else rng.randint(1, 64)
+        bi = rng.randint(0, 7)
+        need = (bi + nb + 7) // 8
+        bo = rng.choice([0, max(0, n - need), max(0, n - need + 1), rng.randint(0, max(0, n))])
+        r2 = rng.random()
+        if r2 < 0.06:
+            nb = rng.choice([0, 65, -1, 2**63, 2**64, 128])
+        elif r2 < 0.12:
+            bi = rng.choice([8, -1, 2**63, -2**63 - 1, 64])
+        elif r2 < 0.2:
+            bo = rng.choice([n, n + 1, 2**61, 2**61 - 1, 2**60, 2**63 - 1, 2**63, -1, 2**64, 2**32, -2**63])
+        if name == "binary_get":
+            return T(B(a), I(bo), I(bi), I(nb))
+        lim = 2 ** max(0, min(nb, 70)) if nb > 0 else 1
+        r3 = rng.random()
+        v = rng.randint(0, lim - 1) if r3 < 0.6 else rng.choice([lim - 1, lim, 0, 1, 2**63 - 1, 2**63, 2**64 - 1, -1, lim // 2, 2**64])
+        return T(B(a), I(bo), I(bi), I(v), I(nb))
+    if name == "binary_slice":
+        a = c()
+        n = content_len(a)
+        r = rng.random()
+        if r < 0.7:
+            s = rng.randint(0, n); e = rng.randint(s, n)
+            if rng.random() < 0.3:
+                s, e = rng.choice([(0, n), (0, 0), (n, n), (1, n), (0, max(0, n - 1))])
+                s = min(s, n)
+        else:
+            s = rng.choice([0, n, n + 1, -1, 2**63, 2**64, 2**64 - 1, 1]); e = rng.choice([0, n, n + 1, -1, 2**64, 2**64 - 1, n - 1])
+        return T(B(a), I(s), I(e))
+    if name == "binary_index":
+        a = c()
+        n = content_len(a)
+        if a[0] == "bytes" and a[1] and rng.random() < 0.6:
+            byte = rng.choice(a[1])
+        elif a[0] == "periodic" and rng.random() < 0.6:
+            byte = rng.choice(a[1])
+        else:
+            byte = rng.choice([0, 0, 255, 1, 256, -1, 2**63, rng.randint(0, 255)])
+        off = rng.randint(0, n + 1) if rng.random() < 0.7 else rng.choice([0, n, n - 1, n + 1, -1, 2**63, 2**64 - 1, 2**64, MAXB])
+        return T(B(a), I(byte), I(off))
+    if name == "binary_append":
+        a = c()
+        r = rng.random()
+        nbytes = rng.randint(1, 8) if r < 0.8 else rng.choice([0, 9, -1, 2**63, 2**64])
+        lim = 2 ** (8 * max(0, min(nbytes, 9)))
+        r3 = rng.random()
+        v = rng.randint(0, max(0, lim - 1)) if r3 < 0.6 else rng.choice([lim - 1, lim, 0, 2**63 - 1, 2**63, 2**64 - 1, -1, 2**64])
+        return T(B(a), I(v), I(nbytes))
+    if name in ("vector_add", "vector_subtract", "vector_multiply", "vector_less_than", "vector_equal", "vector_greater_than", "vector_dot"):
+        w = gen_width(rng)
+        ww = w if w in (4, 8) else 4
+        lanes = rng.choice([0, 1, 2, 3, 5, 9])
+        mode = rng.choice(["small", "edge", "edge"])
+        a = lane_bytes(rng, ww, lanes, mode)
+        b = lane_bytes(rng, ww, lanes, mode)
+        r = rng.random()
+        if r < 0.1:
+            b = b + gen_bytes(rng, rng.randint(1, ww))
+        elif r < 0.2:
+            extra = gen_bytes(rng, rng.randint(1, ww - 1)); a += extra; b += gen_bytes(rng, len(extra))
+        elif r < 0.3 and lanes:
+            b = a
+        return T(B(("bytes", a)), B(("bytes", b)), I(w))
+    if name == "vector_take":
+        w = gen_width(rng)
+        ww = w if w in (4, 8) else 4
+        lanes = rng.choice([0, 1, 2, 3, 5, 9])
+        data = lane_bytes(rng, ww, lanes, "edge")
+        mask = bytes(rng.choice([0, 1, 1, 255, 2]) for _ in range(lanes))
+        r = rng.random()
+        if r < 0.1:
+            mask += b"\x01"
+        elif r < 0.2:
+            data += gen_bytes(rng, rng.randint(1, ww - 1))
+        elif r < 0.25 and lanes:
+            mask = mask[:-1]
+        return T(B(("bytes", data)), I(w), B(("bytes", mask)))
+    if name == "vector_get":
+        w = gen_width(rng)
+        ww = w if w in (4, 8) else 4
+        lanes = rng.choice([0, 1, 2, 3, 5, 9])
+        data = lane_bytes(rng, ww, lanes, "edge")
+        if rng.random() < 0.12:
+            data += gen_bytes(rng, rng.randint(1, ww - 1))
+        idx = rng.randint(0, lanes) if rng.random() < 0.7 else rng.choice([-1, lanes, lanes - 1, 2**64 - 1, 2**64, 2**63, 2**62, 2**61, (2**64) // ww, (2**64) // ww - 1, 2**32])
+        return T(B(("bytes", data)), I(w), I(idx))
+    if name == "vector_push":
+        w = gen_width(rng)
+        ww = w if w in (4, 8) else 4
+        lanes = rng.choice([0, 1, 2, 3, 5, 9])
+        data = lane_bytes(rng, ww, lanes, "edge")
+        if rng.random() < 0.12:
+            data += gen_bytes(rng, rng.randint(1, ww - 1))
+        v = rng.choice([0, 1, -1, 2**31 - 1, 2**31, -2**31, -2**31 - 1, 2**63 - 1, 2**63, -2**63, -2**63 - 1, 2**64, rng.randint(-2**63, 2**63 - 1), rng.randint(-2**31, 2**31 - 1)])
+        return T(B(("bytes", data)), I(w), I(v))
+    if name == "vector_sum":
+        w = gen_width(rng)
+        ww = w if w in (4, 8) else 4
+        lanes = rng.choice([0, 1, 2, 3, 5, 9, 20])
+        data = lane_bytes(rng, ww, lanes, "edge")
+        if rng.random() < 0.12:
+            data += gen_bytes(rng, rng.randint(1, ww - 1))
+        return T(B(("bytes", data)), I(w))
+    return None
+
+
+def from_spec(rng, spec, big):
+    if spec == "int":
+        return I(gen_int(rng))
+    if spec == "bin":
+        return B(gen_content(rng, big_ok=big))
+    if isinstance(spec, list) and spec[0] == "tuple":
+        return T(*[from_spec(rng, f[1], big) for f in spec[2:]])
+    return ("o",)
+
+
+ILL = [("o",), I(1), T(), T(I(1)), B(("bytes", b"\x01")), T(I(1), I(2), I(3)), T(B(("bytes", b"\x01\x02")), ("o",)),
+       T(B(("bytes", b"")), B(("bytes", b"")), B(("bytes", b""))), T(I(4), B(("bytes", b"\x00" * 8)), I(0)),
+       T(B(("bytes", b"\x01")), I(0), I(0), I(1), I(1), I(1)), T(T(), T())]
+
+
+def gen_template(rng, name, spec):
     r = rng.random()
     if r < 0.08:
-        n = rng.choice([16 * 1024 * 1024, 16 * 1024 * 1024 - 1, 2**20, 70000])
-        return rng.choice(["(zero %d)" % n, "(tile (own 00ff) %d)" % (n // 2)])
-    n = rng.choice([0, 1, 2, 3, 4, 7, 8, 9, 12, 16, 17, 32]) if r < 0.8 else rng.randint(0, 80)
-    return rope_shapes(rng, gen_bytes(rng, n))
+        return rng.choice(ILL)
+    if r < 0.2:
+        t = from_spec(rng, spec, name in NON_MATERIALISING)
+        if r < 0.12 and t[0] == "t" and t[1]:
+            # corrupt one field / the arity
+            fs = list(t[1])
+            k = rng.randrange(len(fs))
+            m = rng.random()
+            if m < 0.4:
+                fs[k] = rng.choice([("o",), T(), I(0), B(("bytes", b"\x00"))])
+            elif m < 0.7:
+                fs.pop(k)
+            else:
+                fs.append(I(0))
+            t = T(*fs)
+        return t
+    t = targeted(rng, name)
+    return t if t is not None else from_spec(rng, spec, name in NON_MATERIALISING)
 
 
-def gen_arg(rng, spec, well_typed=True):
-    if not well_typed and rng.random() < 0.3:
-        return rng.choice(["(o)", "(i 1)", "(t)", "(t (i 1))", "(b (own 01))", "(t (i 1) (i 2) (i 3))"])
-    if spec == "int":
-        return "(i %d)" % gen_int(rng)
-    if spec == "bin":
-        return "(b %s)" % gen_rope(rng)
-    if isinstance(spec, list) and spec[0] == "tuple":
-        return "(t %s)" % " ".join(gen_arg(rng, f[1], well_typed) for f in spec[2:])
+def render(rng, t):
+    k = t[0]
+    if k == "i":
+        return "(i %d)" % t[1]
+    if k == "b":
+        return "(b %s)" % shape(rng, t[1])
+    if k == "t":
+        return "(t%s)" % "".join(" " + render(rng, f) for f in t[1])
     return "(o)"
 
 
+def has_bin(t):
+    return t[0] == "b" or (t[0] == "t" and any(has_bin(f) for f in t[1]))
+
+
 def classify(case):
-    """non-trivial: touches a boundary magnitude, a non-Owned rope, or an ill-typed argument."""
+    """non-trivial: touches a boundary magnitude, a non-Owned rope, an unaligned bit window, or an
+    ill-typed argument."""
     if re.search(r"\((zero|cat|slice|tile) ", case):
         return True
     for m in re.finditer(r"\(i (-?\d+)\)", case):
         if abs(int(m.group(1))) >= 2**31:
             return True
-    return "(o)" in case
+    m = re.match(r"\(binary_[gs]et \(t \(b .*\) \(i (-?\d+)\) \(i (-?\d+)\)", case)
+    if m and int(m.group(2)) % 8 != 0:
+        return True
+    return "(o)" in case or "(t)" in case
+
+
+def strip_shape(out):
+    return out.split(" #shape=")[0]
+
+
+def canon(out):
+    return re.sub(r'\(panic "[^"]*"\)', "(panic)", out)
 
 
 def run(ctx):
@@ -100,39 +411,74 @@ def run(ctx):
     drv = ctx.driver("builtins")
     if not qb or not drv:
         return
-    # --- model-coverage guard: which registered pure builtins does the model cover?
+    # --- model-coverage guard (hard): every registered pure builtin is modelled or totality-only
     _, sigs = ctx.run_bin(qb, [], args=["--names"])
     _, modelled = ctx.run_bin(drv, [], args=["--names"])
+    _, specced = ctx.run_bin(drv, [], args=["--spec-names"])
     modelled = set(modelled)
+    specced = set(specced)
     specs = {}
+    max_binary = None
     for line in sigs:
         s = sexpr.parse(line)
         if s[0] == "sig":
             specs[s[1]] = s[2]
+        elif s[0] == "max_binary_size":
+            max_binary = int(s[1])
     pure = sorted(n for n in specs if n.split("_")[0] in ("integer", "binary", "vector"))
-    unmodelled = [n for n in pure if n not in modelled]
+    unmodelled = [n for n in pure if n not in modelled and n not in TOTALITY_ONLY]
     ctx.cov["builtins_registered_pure"] = len(pure)
     ctx.cov["builtins_modelled"] = sorted(modelled & set(pure))
+    ctx.cov["builtins_with_extracted_spec"] = sorted(specced & set(pure))
+    ctx.cov["builtins_totality_only"] = [n for n in TOTALITY_ONLY if n in pure]
     ctx.cov["builtins_unmodelled"] = unmodelled
-    # --- cases
+    ctx.cov["builtins_modelled_but_not_registered"] = sorted(modelled - set(pure))
+    for n in unmodelled:
+        ctx.violation({"kind": "theorem-broken", "theorem": "model-coverage guard",
+                       "what": "registered pure builtin %s %s is neither modelled in Builtins.v nor in the totality-only list; C12 is not shown for it" % (n, specs[n])},
+                      no_input=True)
+    if max_binary != MAXB:
+        ctx.violation({"kind": "theorem-broken", "theorem": "model-coverage guard",
+                       "what": "MAX_BINARY_SIZE is %s in the code, %d in Rope.v" % (max_binary, MAXB)}, no_input=True)
+    # --- cases: corpus, then generated templates, each rendered in two rope shapes
     names = sorted(modelled & set(pure))
-    ncases = ctx.n(6000, 400000)
-    cases = []
+    ncases = ctx.n(9000, 300000)
     corpus = ctx_corpus("c12_builtin_cases.txt")
-    cases += corpus
+    cases = list(corpus)
+    pair_of = {}                  # index of shape-B case -> index of its shape-A twin
     for i in range(ncases):
         name = ctx.rng.choice(names)
-        cases.append("(%s %s)" % (name, gen_arg(ctx.rng, specs[name], well_typed=ctx.rng.random() < 0.85)))
-    rc1, impl = ctx.run_sharded(qb, cases)
+        t = gen_template(ctx.rng, name, specs[name])
+        a = "(%s %s)" % (name, render(ctx.rng, t))
+        cases.append(a)
+        if has_bin(t) and ctx.rng.random() < 0.6:
+            b = "(%s %s)" % (name, render(ctx.rng, t))
+            if b != a:
+                pair_of[len(cases)] = len(cases) - 1
+                cases.append(b)
+    tot_cases = []
+    for n in ctx.cov["builtins_totality_only"]:
+        for i in range(ctx.n(300, 5000)):
+            tot_cases.append("(%s %s)" % (n, render(ctx.rng, I(gen_int(ctx.rng)) if ctx.rng.random() < 0.9 else ctx.rng.choice(ILL))))
+    rc1, impl = ctx.run_sharded(qb, cases + tot_cases)
     rc2, model = ctx.run_sharded(drv, cases)
+    rc3, spec = ctx.run_sharded(drv, cases, args=["--spec"])
     builds = [("debug", impl)]
     if ctx.tier == "thorough":
         qbr = ctx.harness("qv_builtin", release=True)
         if qbr:
-            builds.append(("release", ctx.run_sharded(qbr, cases)[1]))
+            builds.append(("release", ctx.run_sharded(qbr, cases + tot_cases)[1]))
     hist, seen, nontrivial = {}, set(), 0
-    disagreements = 0
-    skipped = 0
+    disagreements = spec_disagreements = shape_pairs = shape_viol = panics = 0
+    outcome_hist = {}
+    reported = 0
+
+    def report(obj, no_input):
+        nonlocal reported
+        reported += 1
+        if reported <= 8:
+            ctx.violation(obj, no_input=no_input)
+
     for i, c in enumerate(cases):
         name = c[1:c.index(" ")]
         hist[name] = hist.get(name, 0) + 1
@@ -141,36 +487,68 @@ def run(ctx):
             seen.add(h)
             if classify(c):
                 nontrivial += 1
-        if model[i] == "(unmodelled)":
-            skipped += 1
-            continue
+        m = model[i] if i < len(model) else "(missing-output)"
+        key = name + ":" + (m[1:].split(" ")[0].rstrip(")") if m.startswith("(") else "?")
+        outcome_hist[key] = outcome_hist.get(key, 0) + 1
         for bname, out in builds:
             got = out[i] if i < len(out) else "(missing-output)"
-            got_c = re.sub(r'\(panic "[^"]*"\)', "(panic)", got)
-            if got_c != model[i]:
+            if got.startswith("(panic") or got == "(missing-output)":
+                panics += 1
+                report({"kind": "impl-violation", "oracle": "the real builtin panicked / produced no outcome (%s build)" % bname,
+                        "case": c, "impl": got, "model": m}, False)
+                continue
+            if m == "(unmodelled)":
+                continue
+            if canon(got) != m:
                 disagreements += 1
-                if disagreements <= 5:
-                    kind = "impl-violation" if got.startswith("(panic") else "correspondence-broken"
-                    ctx.violation({"kind": kind, "correspondence": "Builtins.v impl_%s vs %s (%s build)" % (name, name, bname),
-                                   "case": c, "model": model[i], "impl": got},
-                                  no_input=(kind != "impl-violation" and not wrong_vs_spec(c, got)))
+                value_differs = strip_shape(canon(got)) != strip_shape(m)
+                report({"kind": "correspondence-broken",
+                        "correspondence": "Builtins.v impl_%s vs %s (%s build)%s" % (name, name, bname, "" if value_differs else " — result rope shape only"),
+                        "case": c, "model": m, "impl": got},
+                       not (value_differs and got.startswith("(ok")))
+            # reference spec (flat bytes, unbounded Z) against the real result
+            s = spec[i] if i < len(spec) else "(missing-output)"
+            if s != "(unspecified)" and strip_shape(canon(got)) != s:
+                spec_disagreements += 1
+                report({"kind": "correspondence-broken", "correspondence": "BuiltinSpec.v spec_%s vs %s (%s build)" % (name, name, bname),
+                        "case": c, "spec": s, "impl": got}, not got.startswith("(ok"))
+        # shape-independence oracle on the real code
+        if i in pair_of:
+            j = pair_of[i]
+            for bname, out in builds:
+                shape_pairs += 1
+                x, y = strip_shape(out[i]), strip_shape(out[j])
+                if x != y:
+                    shape_viol += 1
+                    report({"kind": "impl-violation", "oracle": "shape independence: equal content in two rope shapes gives different real results (%s build)" % bname,
+                            "case_a": cases[j], "impl_a": out[j], "case_b": c, "impl_b": out[i]}, False)
+    tot_ok = 0
+    for k, c in enumerate(tot_cases):
+        for bname, out in builds:
+            got = out[len(cases) + k] if len(cases) + k < len(out) else "(missing-output)"
+            if got.startswith("(panic") or got == "(missing-output)":
+                panics += 1
+                report({"kind": "impl-violation", "oracle": "totality: the real builtin panicked / produced no outcome (%s build)" % bname,
+                        "case": c, "impl": got}, False)
+            else:
+                tot_ok += 1
+    nev = (len(cases) + len(tot_cases)) * len(builds)
     ctx.cov.update({
-        "evaluations": len(cases) * len(builds), "distinct_nontrivial": nontrivial,
-        "rule": "boundary-weighted integers (0, +-1, 2^31, 2^32, 2^63, 2^64-1, beyond), ropes of 5 shapes built with the real constructors, 15% ill-typed arguments; non-trivial = touches |n| >= 2^31, a non-Owned rope or an ill-typed argument; distinct by SHA-1 of the case line",
-        "samples": cases[len(corpus):len(corpus) + 5] + [{"case": cases[-1], "impl": impl[-1], "model": model[-1]}],
-        "traces_validated_against_impl": len(cases) - disagreements,
-        "disagreements_checked": disagreements, "per_builtin_cases": hist, "corpus_cases_skipped_unmodelled": skipped, "builds": [b for b, _ in builds],
+        "evaluations": nev, "distinct_nontrivial": nontrivial,
+        "rule": "per-builtin targeted arguments (boundary magnitudes 0, +-1, 2^31, 2^32, 2^63, 2^64-1, beyond; unaligned bit windows; lane values at the i32/i64 edges; sizes around MAX_BINARY_SIZE as lazy zero/tile ropes for non-materialising builtins), 20% generic/ill-typed arguments, every binary rendered as a random well-formed rope (own/zero/cat/slice/tile, depth <= 4) built with the real constructors; non-trivial = touches |n| >= 2^31, a non-Owned rope, an unaligned bit window or an ill-typed argument; distinct by SHA-1 of the case line",
+        "samples": cases[len(corpus):len(corpus) + 5] + [{"case": cases[-1], "impl": impl[len(cases) - 1], "model": model[-1], "spec": spec[-1]}],
+        "traces_validated_against_impl": len(cases) * len(builds) - disagreements,
+        "disagreements_checked": disagreements + spec_disagreements + shape_viol + panics,
+        "model_vs_impl_disagreements": disagreements, "spec_vs_impl_disagreements": spec_disagreements,
+        "shape_independence_pairs_checked_on_real_code": shape_pairs, "shape_independence_violations": shape_viol,
+        "totality_only_evaluations": tot_ok, "real_panics": panics,
+        "per_builtin_cases": hist, "model_outcome_histogram": outcome_hist, "builds": [b for b, _ in builds],
+        "corpus_cases": len(corpus),
     })
     if not ok:
         ctx.violation({"kind": "theorem-broken", "theorem": getattr(ctx, "broken_theorem", "?"),
                        "searched": "%d differential cases on the real builtins, %d disagreements" % (len(cases), disagreements)},
-                      no_input=(disagreements == 0))
-
-
-def wrong_vs_spec(case, got):
-    """A disagreement where the real code returns a value is treated as a failing input: the model
-    is proved equal to the reference spec, so a differing real value is a wrong value."""
-    return got.startswith("(ok")
+                      no_input=(disagreements + shape_viol + panics == 0))
 
 
 def ctx_corpus(name):
